@@ -13,6 +13,8 @@
 (*                   put into the unpublished store, queued                *)
 (*   SubmitAddFails  the same, but the queue refuses the operation: the    *)
 (*                   unpublished entry is removed again                    *)
+(*   SubmitPutFails  the same, but the unpublished-operation store refuses *)
+(*                   the operation: it is not queued either                *)
 (*   Flush / FlushFails   one forced round of the batch writer (C16 covers *)
 (*                   its interleavings; here it is atomic)                 *)
 (*   Garbage, Dup    adversarial ledger entries: unreadable anchor; a      *)
@@ -21,6 +23,10 @@
 (*                   entry, f in none / cas (file unreadable) / put (store *)
 (*                   write fails)                                          *)
 (*   Upgrade         a new protocol version comes into force               *)
+(*   Clock           the server clock passes the anchorUntil of the        *)
+(*                   "expiring" updates (kind E): intake now refuses them, *)
+(*                   and the writer's operation handler discards those     *)
+(*                   still queued when it cuts the next batch              *)
 (*   ResolveAll      DocumentHandler.ResolveDocument of every DID          *)
 (*   ResolveHist     ... of every DID at every version time and version id *)
 (*                                                                         *)
@@ -36,6 +42,8 @@ CONSTANTS Dids,        \* set of DID indices
           MaxFaults,   \* fault budget
           UnpubOn,     \* BOOLEAN: unpublished-operation store configured (all operation types)
           TwoVersions, \* BOOLEAN: may a second protocol version come into force?
+          Expiry,      \* BOOLEAN: are expiring updates (kind E) and the Clock action part of the behaviours?
+          KeepExpiredUnpublished, \* BOOLEAN: TRUE = the code as built (a discarded operation stays in the unpublished store)
           MaxSteps     \* bound on behaviour length (schedule generation)
 
 VARIABLES client,    \* [Dids -> [created, uk, rk]]  what the client believes its keys are
@@ -47,10 +55,13 @@ VARIABLES client,    \* [Dids -> [created, uk, rk]]  what the client believes it
           curver,    \* protocol version in force for intake: 0 or 10
           nsub, faults, hist,
           deferredEver, \* has the writer ever deferred an operation (same DID twice in one batch)?
+          late,      \* has the server clock passed the anchorUntil of the expiring updates?
+          expiredEver, \* has the operation handler ever discarded an expired operation?
           last       \* observable outcome of the last step (checked against the real reply)
 
-vars == <<client, queue, unpub, ledger, observed, store, curver, nsub, faults, hist, deferredEver, last>>
-MCView == <<client, queue, unpub, ledger, observed, store, curver, nsub, faults, deferredEver>>
+vars == <<client, queue, unpub, ledger, observed, store, curver, nsub, faults, hist, deferredEver, late, expiredEver, last>>
+MCView == <<client, queue, unpub, ledger, observed, store, curver, nsub, faults, deferredEver, late, expiredEver>>
+xvars == <<late, expiredEver>>
 
 FarFuture == 1000000     \* unpublished operations carry "now" as transaction time: after everything anchored
 
@@ -59,6 +70,7 @@ H(x) == hist' = Append(hist, x)
 Init == /\ client = [d \in Dids |-> [created |-> FALSE, uk |-> 4, rk |-> 1, seq |-> 0, dead |-> FALSE]]
         /\ queue = <<>> /\ unpub = {} /\ ledger = <<>> /\ observed = 0 /\ store = {}
         /\ curver = 0 /\ nsub = 0 /\ faults = 0 /\ hist = <<>> /\ last = [a |-> "init"] /\ deferredEver = FALSE
+        /\ late = FALSE /\ expiredEver = FALSE
 
 (* the operations resolution sees for DID d *)
 OpsOf(d) == {[sh |-> o.sh, t |-> o.t, n |-> o.n, pub |-> TRUE] : o \in {x \in store : x.d = d}}
@@ -77,6 +89,10 @@ Shape(d, k) ==
        \* "B": a create that passes validation but whose response cannot be built (a key the transformer cannot convert):
        \* the handler refuses it - and a refused operation leaves no trace (C15)
        [] k = "B" -> [ty |-> "C", rk |-> 0, sig |-> "ok", nuc |-> 4, nrc |-> 1, dl |-> "ok", win |-> "none", p |-> d * 100 + 99, sfx |-> "ok"]
+       \* "E": an ordinary update whose signed window ends at a server time that Clock passes (anchorUntil 500); anchored,
+       \* it is in its window (the ledger times of the model are small); as an unpublished operation it carries the
+       \* submission time FarFuture and is out of it (it advances the commitment and leaves the document alone)
+       [] k = "E" -> [ty |-> "U", rk |-> c.uk, sig |-> "ok", nuc |-> c.uk + 1, nrc |-> 0, dl |-> "ok", win |-> "until500", p |-> p, sfx |-> "ok"]
        [] k = "R" -> [ty |-> "R", rk |-> c.rk, sig |-> "ok", nuc |-> c.uk + 1, nrc |-> c.rk + 1, dl |-> "ok", win |-> "none", p |-> p, sfx |-> "ok"]
        [] k = "D" -> [ty |-> "D", rk |-> c.rk, sig |-> "ok", nuc |-> 0, nrc |-> 0, dl |-> "ok", win |-> "none", p |-> 0, sfx |-> "ok"]
 
@@ -90,30 +106,33 @@ ClientCan(d, k) ==
 ClientAfter(d, k) ==
   LET c == client[d] IN
   CASE k = "C" -> [c EXCEPT !.created = TRUE]
-    [] k = "U" -> [c EXCEPT !.uk = c.uk + 1, !.seq = c.seq + 1]
+    [] k \in {"U", "E"} -> [c EXCEPT !.uk = c.uk + 1, !.seq = c.seq + 1]
     [] k = "X" -> [c EXCEPT !.uk = 4, !.seq = c.seq + 1]
     [] k = "R" -> [c EXCEPT !.uk = c.uk + 1, !.rk = c.rk + 1, !.seq = c.seq + 1]
     [] k = "D" -> [c EXCEPT !.dead = TRUE]
 
 (* intake accepts a create always; anything else only if the DID currently resolves and is not deactivated *)
 IntakeAccepts(d, k) ==
-  k # "B" /\ (k = "C" \/ (Resolved(d).exists /\ ~Resolved(d).deact))
+  /\ k # "B" /\ (k = "C" \/ (Resolved(d).exists /\ ~Resolved(d).deact))
+  /\ k = "E" => ~late                \* the server-time validator refuses an operation whose window has passed
 
-Submit(d, k, addFails) ==
+Submit(d, k, f) ==                       \* f: "none" | "add" (the queue refuses) | "put" (the unpublished store refuses)
   /\ nsub < MaxSubmits /\ ClientCan(d, k)
-  /\ addFails => faults < MaxFaults
-  /\ LET op == [id |-> nsub + 1, d |-> d, sh |-> Shape(d, k), ver |-> curver]
-         ok == IntakeAccepts(d, k) /\ ~addFails
+  /\ f # "none" => faults < MaxFaults
+  /\ f = "put" => UnpubOn
+  /\ k = "E" => Expiry
+  /\ LET op == [id |-> nsub + 1, d |-> d, sh |-> Shape(d, k), ver |-> curver, exp |-> k = "E"]
+         ok == IntakeAccepts(d, k) /\ f = "none"
      IN /\ nsub' = nsub + 1
-        /\ faults' = IF addFails THEN faults + 1 ELSE faults
+        /\ faults' = IF f # "none" THEN faults + 1 ELSE faults
         /\ IF ok
            THEN /\ queue' = Append(queue, op)
                 /\ unpub' = IF UnpubOn THEN unpub \cup {op} ELSE unpub
                 /\ client' = [client EXCEPT ![d] = ClientAfter(d, k)]
            ELSE UNCHANGED <<queue, unpub, client>>
         /\ last' = [a |-> "Submit", accepted |-> ok]
-        /\ H([a |-> IF addFails THEN "SubmitAddFails" ELSE "Submit", d |-> d, k |-> k])
-  /\ UNCHANGED <<ledger, observed, store, curver, deferredEver>>
+        /\ H([a |-> CASE f = "add" -> "SubmitAddFails" [] f = "put" -> "SubmitPutFails" [] OTHER -> "Submit", d |-> d, k |-> k])
+  /\ UNCHANGED <<ledger, observed, store, curver, deferredEver, xvars>>
 
 (* the forced round of the writer: the same-version prefix of the queue is cut; the first operation per DID is    *)
 (* included, further ones are deferred to the tail of the queue                                                    *)
@@ -128,29 +147,38 @@ Flush(fails) ==
   /\ fails => faults < MaxFaults
   /\ LET n     == VerPrefix(queue, 1, queue[1].ver)
          batch == SubSeq(queue, 1, n)
+         \* the operation handler parses every operation of the batch against the server clock: expired ones are
+         \* discarded (reported as such to the writer, which does nothing with them); the first LIVE operation per DID is
+         \* included, further live ones are deferred
+         live  == SelectSeq(batch, LAMBDA o : ~(o.exp /\ late))
+         dead  == SelectSeq(batch, LAMBDA o : o.exp /\ late)
      IN IF fails
-        THEN /\ faults' = faults + 1 /\ UNCHANGED <<queue, ledger, deferredEver>>
+        THEN /\ faults' = faults + 1 /\ UNCHANGED <<queue, ledger, deferredEver, unpub, expiredEver>>
              /\ last' = [a |-> "Flush", anchored |-> <<>>]
-        ELSE /\ queue' = SubSeq(queue, n + 1, Len(queue)) \o Deferred(batch)
-             /\ ledger' = Append(ledger, [kind |-> "ok", ops |-> Included(batch), ver |-> queue[1].ver])
+        ELSE /\ queue' = SubSeq(queue, n + 1, Len(queue)) \o Deferred(live)
+             /\ ledger' = Append(ledger, [kind |-> "ok", ops |-> Included(live), ver |-> queue[1].ver])
              /\ faults' = faults
-             /\ deferredEver' = (deferredEver \/ Deferred(batch) # <<>>)
-             /\ last' = [a |-> "Flush", anchored |-> [i \in DOMAIN Included(batch) |-> Included(batch)[i].id]]
+             /\ deferredEver' = (deferredEver \/ Deferred(live) # <<>>)
+             /\ expiredEver' = (expiredEver \/ dead # <<>>)
+             \* a discarded operation will never be anchored: it has no place in the unpublished store any more.  As built,
+             \* nobody removes it (the writer has no access to that store): KeepExpiredUnpublished names that deviation.
+             /\ unpub' = IF KeepExpiredUnpublished THEN unpub ELSE {u \in unpub : \A j \in DOMAIN dead : dead[j].id # u.id}
+             /\ last' = [a |-> "Flush", anchored |-> [i \in DOMAIN Included(live) |-> Included(live)[i].id]]
   /\ H([a |-> IF fails THEN "FlushFails" ELSE "Flush"])
-  /\ UNCHANGED <<client, unpub, observed, store, curver, nsub>>
+  /\ UNCHANGED <<client, observed, store, curver, nsub, late>>
 
 Garbage ==
   /\ Len(ledger) < MaxLedger /\ faults < MaxFaults
   /\ ledger' = Append(ledger, [kind |-> "garbage", ops |-> <<>>, ver |-> curver])
   /\ faults' = faults + 1 /\ last' = [a |-> "Garbage"] /\ H([a |-> "Garbage"])
-  /\ UNCHANGED <<client, queue, unpub, observed, store, curver, nsub, deferredEver>>
+  /\ UNCHANGED <<client, queue, unpub, observed, store, curver, nsub, deferredEver, xvars>>
 
 (* a transaction whose operation provider hands back every operation twice: only the first per suffix may be stored *)
 Dup ==
   /\ observed < Len(ledger) /\ ledger[observed + 1].kind = "ok" /\ faults < MaxFaults
   /\ ledger' = [ledger EXCEPT ![observed + 1].kind = "dup"]
   /\ faults' = faults + 1 /\ last' = [a |-> "Dup"] /\ H([a |-> "Dup"])
-  /\ UNCHANGED <<client, queue, unpub, observed, store, curver, nsub, deferredEver>>
+  /\ UNCHANGED <<client, queue, unpub, observed, store, curver, nsub, deferredEver, xvars>>
 
 Stamp(o, i, v) == [id |-> o.id, d |-> o.d, sh |-> o.sh, ver |-> v, t |-> i, n |-> i, pub |-> TRUE, ref |-> i]
 
@@ -167,17 +195,22 @@ Observe(f) ==
         /\ faults' = IF f = "none" THEN faults ELSE faults + 1
         /\ last' = [a |-> "Observe", stored |-> {o.id : o \in new}]
   /\ H([a |-> "Observe", f |-> f])
-  /\ UNCHANGED <<client, queue, ledger, curver, nsub, deferredEver>>
+  /\ UNCHANGED <<client, queue, ledger, curver, nsub, deferredEver, xvars>>
 
 Upgrade ==
   /\ TwoVersions /\ curver = 0
   /\ curver' = 10 /\ last' = [a |-> "Upgrade"] /\ H([a |-> "Upgrade"])
-  /\ UNCHANGED <<client, queue, unpub, ledger, observed, store, nsub, faults, deferredEver>>
+  /\ UNCHANGED <<client, queue, unpub, ledger, observed, store, nsub, faults, deferredEver, xvars>>
+
+Clock ==
+  /\ Expiry /\ ~late
+  /\ late' = TRUE /\ last' = [a |-> "Clock"] /\ H([a |-> "Clock"])
+  /\ UNCHANGED <<client, queue, unpub, ledger, observed, store, curver, nsub, faults, deferredEver, expiredEver>>
 
 ResolveAll ==
   /\ last' = [a |-> "ResolveAll", views |-> [d \in Dids |-> View(Resolved(d))]]
   /\ H([a |-> "ResolveAll"])
-  /\ UNCHANGED <<client, queue, unpub, ledger, observed, store, curver, nsub, faults, deferredEver>>
+  /\ UNCHANGED <<client, queue, unpub, ledger, observed, store, curver, nsub, faults, deferredEver, xvars>>
 
 (* historical resolution (C06) through the document handler: at version time T the operations anchored at or before  *)
 (* T count (unpublished ones carry the submission time: after everything anchored); at version id i (the reference    *)
@@ -190,13 +223,13 @@ ResolveHist ==
               times    |-> [d \in Dids |-> [T \in 1..Len(ledger) |-> HistT(d, T)]],
               versions |-> [d \in Dids |-> [i \in 1..Len(ledger) |-> HistV(d, i)]]]
   /\ H([a |-> "ResolveHist"])
-  /\ UNCHANGED <<client, queue, unpub, ledger, observed, store, curver, nsub, faults, deferredEver>>
+  /\ UNCHANGED <<client, queue, unpub, ledger, observed, store, curver, nsub, faults, deferredEver, xvars>>
 
-Next == \/ \E d \in Dids, k \in {"C", "B", "U", "X", "R", "D"}, af \in BOOLEAN : Submit(d, k, af)
+Next == \/ \E d \in Dids, k \in {"C", "B", "U", "X", "R", "D", "E"}, f \in {"none", "add", "put"} : Submit(d, k, f)
         \/ \E fl \in BOOLEAN : Flush(fl)
         \/ Garbage \/ Dup
         \/ \E f \in {"none", "cas", "put"} : Observe(f)
-        \/ Upgrade
+        \/ Upgrade \/ Clock
         \/ ResolveAll \/ ResolveHist
 
 NextGen == Len(hist) < MaxSteps /\ Next
@@ -222,6 +255,16 @@ HistoryStable ==
   [][\A d \in Dids : \A T \in 1..observed :
         View(ResolveRef(TruncT(OpsOfX(store', unpub', d), T))) = View(ResolveRef(TruncT(OpsOfX(store, unpub, d), T)))]_vars
 
+(* an unpublished operation is one that is still on its way: queued, or anchored and not yet observed (fault-free) *)
+NoOrphanUnpublished ==
+  (faults = 0 /\ ~KeepExpiredUnpublished) =>
+     \A u \in unpub : \/ \E i \in DOMAIN queue : queue[i].id = u.id
+                      \/ \E i \in (observed + 1)..Len(ledger) : \E j \in DOMAIN ledger[i].ops : ledger[i].ops[j].id = u.id
+(* ... so that, once everything anchored has been observed and nothing is queued, resolution sees anchored operations only *)
+QuiescentMeansPublished == (faults = 0 /\ ~KeepExpiredUnpublished /\ queue = <<>> /\ observed = Len(ledger)) => unpub = {}
+
+QuiescentMeansPublishedAsBuilt == (faults = 0 /\ queue = <<>> /\ observed = Len(ledger)) => unpub = {}
+
 (* C04 / C20 *)
 DeactivatedRefuses == \A d \in Dids : (Resolved(d).exists /\ Resolved(d).deact) => ~IntakeAccepts(d, "U")
 
@@ -231,7 +274,7 @@ DeactivatedRefuses == \A d \in Dids : (Resolved(d).exists /\ Resolved(d).deact) 
 (* operations and without deferrals the resolved state is what the client intends:                                  *)
 ClientView(d) == client[d]
 NoKeyReuse == \A o \in store : ~(o.sh.ty = "U" /\ o.sh.nuc = 4)
-Settled == queue = <<>> /\ observed = Len(ledger) /\ faults = 0 /\ unpub = {} /\ ~deferredEver /\ NoKeyReuse
+Settled == queue = <<>> /\ observed = Len(ledger) /\ faults = 0 /\ unpub = {} /\ ~deferredEver /\ NoKeyReuse /\ ~expiredEver
 IntendedState ==
   Settled => \A d \in Dids :
      LET c == client[d] r == Resolved(d) IN
